@@ -70,7 +70,8 @@ class Ref:
             raise RequestError
         return named[0]
 
-    def run(self, op=None):
+    def run(self, op=None, force_no_propagation=False, partial_lists=False):
+        self.partial_lists = partial_lists
         try:
             op = op or self.get_operation()
             self.op = op
@@ -78,6 +79,8 @@ class Ref:
         except RequestError:
             return {'data': None, 'request_error': True}
         self.propagate = not any(d.name.value == 'experimental_disableErrorPropagation' for d in op.directives or ())
+        if force_no_propagation:
+            self.propagate = False
         root = self.schema.get_root_type(op.operation)
         if root is None:
             return {'data': None, 'request_error': True}
@@ -456,6 +459,9 @@ def _install_execution(cls):
         if raw is None:
             return None
         if is_list_type(t):
+            failing = None
+            if type(raw).__name__ == 'FailingList':      # G-data's list source that raises after its items
+                failing, raw = raw, raw.items
             if not isinstance(raw, (list, tuple)):
                 raise TypeError('not iterable')
             out = []
@@ -472,6 +478,12 @@ def _install_execution(cls):
                     if is_non_null_type(t.of_type) and self.propagate:
                         raise FieldError(ipath)
                     out.append(None)
+            if failing is not None:
+                if getattr(self, 'partial_lists', False):
+                    # reference for streamed delivery: items that arrived before the source failed stay
+                    self.record_error(path, failing.exc)
+                    return out
+                raise failing.exc       # the source failed: a field error for the list field itself
             return out
         if is_leaf_type(t):
             return self.scalar_out(raw, t)
